@@ -12,7 +12,7 @@
 #include <string>
 
 using namespace sim;
-namespace sim { void setProcessorCount(int n); uint64_t condOpsAfterDestroy(); }
+namespace sim { void setProcessorCount(int n); uint64_t condOpsAfterDestroy(); uint64_t threadsCreated(); }
 
 typedef Future<void>::Private FP;
 
@@ -130,6 +130,7 @@ static void mainTask(void*) {
   for (int c = 0; c < C.nclients; ++c) for (int f = 0; f < 3; ++f) { Fut& F = C.fut[c][f]; char note[64]; snprintf(note, sizeof note, "main:~Future client%d f%d", c, f); setTaskNote(note); deleteFuture(F); if (F.lastCall >= 0) { bool done; { Host h; done = C.call[F.lastCall].done; } if (!done) fail("C10/destructor_returned_before_completion", "~Future returned before call %d completed", F.lastCall); } }
   for (int i = 0; i < C.ncalls; ++i) { int e; bool bad; { Host h; e = C.call[i].exec; bad = C.call[i].argEchoBad; } if (e != 1) fail("C10/not_executed_once", "call %d was executed %d times although its future was joined", i, e); if (bad) fail("C10/wrong_arguments", "call %d received other arguments than were passed to start", i); }
   delete C.target; C.target = 0;
+  { FP::ThreadPool* p = FP::_threadPool; if (p) { uint64_t spawned = threadsCreated(); for (uint64_t i = 0; i < spawned; ++i) probe("worker_spawned"); uint64_t alive = p->_threadCount; for (uint64_t i = alive; i < spawned; ++i) probe("worker_retired"); if (p->_queue.capacity() <= 2 && C.ncalls > 4) probe("small_queue_many_calls"); } }
   setTaskNote("main:pool teardown");
   C.phase = 1;
   requestTail();
